@@ -381,6 +381,14 @@ pub fn classics() -> Vec<(String, Prog)> {
             out.push((format!("relseq-rmw-known[{},{}]", ro.s(), lo.s()), Prog { nlocs: 3, pre: vec![], threads: vec![vec![ld(2, Acq), ld(1, lo), ld(0, Rlx)], vec![st(0, 1, Rlx), st(1, 1, Rel)], vec![Op::FetchAdd { loc: 1, add: 1, ord: ro }, st(2, 1, Rel)]] }));
         }
     }
+    // a store X becomes happens-before the reader between two reads of the same other store S: the next load must not go
+    // back to X (the re-read of S orders X before S like the first read would have)
+    for &so in &[Rel, Sc] {
+        for &lo in &[Acq, Sc] {
+            out.push((format!("reread-after-acquire[{},{}]", so.s(), lo.s()), Prog { nlocs: 2, pre: vec![], threads: vec![vec![ld(0, Rlx), ld(1, lo), ld(0, Rlx), ld(0, Rlx)], vec![st(0, 1, Rlx), st(1, 1, so)], vec![st(0, 2, Rlx)]] }));
+            out.push((format!("own-store-reread-after-acquire[{},{}]", so.s(), lo.s()), Prog { nlocs: 2, pre: vec![], threads: vec![vec![st(0, 2, Rlx), ld(1, lo), ld(0, Rlx), ld(0, Rlx)], vec![st(0, 1, Rlx), st(1, 1, so)]] }));
+        }
+    }
     // a second RMW that reads an OLDER store than the one another RMW has read already (a side channel shows that it ran later)
     for &r1 in &RMW_ORDS {
         for &r2 in &[Rlx, AcqRel, Sc] {
@@ -439,6 +447,8 @@ pub struct Shared {
 }
 
 pub const SPUN_BIT: u64 = 1 << 40;
+/// final value of a location whose two final loads / final unsync_load disagree
+pub const INCOHERENT_FINAL: u64 = 0xBAD_C0DE;
 
 /// Per-iteration client-boundary log: (thread, pc, result) in the order the operations returned.
 pub type IterLog = Vec<(u8, u8, u64)>;
@@ -683,7 +693,12 @@ pub fn run(p: &Prog, cfg: &Cfg) -> RunResult {
                 loom::stop_exploring();
             }
             for l in sh.locs.iter() {
-                out.push(l.load(std::sync::atomic::Ordering::Relaxed));
+                // every store happens-before this point: a second load and an unsync_load have to agree with the first
+                // one (the last store in modification order); a disagreement is recorded as a value no reference has
+                let v1 = l.load(std::sync::atomic::Ordering::Relaxed);
+                let v2 = l.load(std::sync::atomic::Ordering::Relaxed);
+                let vu = unsafe { l.unsync_load() };
+                out.push(if v1 == v2 && v1 == vu { v1 } else { INCOHERENT_FINAL });
             }
             if ctrl == 2 {
                 loom::explore();
